@@ -43,7 +43,7 @@ std::uint64_t Now() { return yaclib::fault::Scheduler::GetScheduler()->GetTimeNs
 std::string At() { return " @" + std::to_string(Now()); }
 
 struct Op {
-  std::string k;  // L T U F FU | LS TS US FS | W WF WP WPF SF N1 NA | S | J E | P G C GQ
+  std::string k;  // L T U F FU | LS TS US FS | W WF WP WPF SF N1 NA | S | J E | P G C GQ GL
   long a = 0;
 };
 
@@ -198,6 +198,7 @@ struct PeekS : yaclib::detail::fiber::SharedMutex {
 static int gSlots[8];
 static YACLIB_THREAD_LOCAL_PTR(int) gTlsP;
 static YACLIB_THREAD_LOCAL_PTR(int) gTlsQ;
+static YACLIB_THREAD_LOCAL_PTR(long) gTlsL;  // a thread-local pointer of another type, never assigned
 
 struct Env {
   const Scenario* sc = nullptr;
@@ -350,6 +351,15 @@ void ExecCommon(Env& env, int i, const Op& op) {
     gTlsQ = gTlsP;
     env.tlsq_expect[i] = env.tls_expect[i];
     Ret("tls_copy");
+  } else if (k == "GL") {
+    Call("tls_getl");
+    long* p = gTlsL.Get();
+    int v = p == nullptr ? -1 : static_cast<int>(reinterpret_cast<int*>(p) - gSlots);
+    if (v != -1) {
+      mon.Bad("tls", "a thread-local pointer of another type that was never assigned reads slot " + std::to_string(v) +
+                       " (the value f" + std::to_string(i) + " stored into a different thread-local pointer)");
+    }
+    Ret("tls_getl " + std::to_string(v));
   } else if (k == "GQ") {
     Call("tls_getq");
     int* p = gTlsQ.Get();
@@ -449,7 +459,7 @@ void RunWith(const Scenario& sc, M* m, Env& env) {
       int fi = static_cast<int>(i);
       for (auto& op : sc.progs[i]) {
         const std::string& k = op.k;
-        if (k == "S" || k == "J" || k == "E" || k == "P" || k == "G" || k == "C" || k == "GQ") {
+        if (k == "S" || k == "J" || k == "E" || k == "P" || k == "G" || k == "C" || k == "GQ" || k == "GL") {
           ExecCommon(env, fi, op);
         } else if (k == "W" || k == "WF" || k == "WP" || k == "WPF" || k == "SF" || k == "N1" || k == "NA") {
           ExecCvOp(env, fi, op);
@@ -476,6 +486,9 @@ void RunScenario(const Scenario& sc) {
   auto& ctx = *vx::gCtx;
   Env env;
   for (int i = 0; i < kMaxF; ++i) env.tls_expect[i] = env.tlsq_expect[i] = -1;
+  // the defaults map of the thread-local proxies is process-global: forget what the previous execution left in it
+  yaclib::detail::fiber::SetDefault(nullptr, 0);
+  yaclib::detail::fiber::SetDefault(nullptr, 1);
   if (sc.prim == "mutex" || sc.prim == "cv") {
     yaclib_std::mutex m;
     yaclib_std::condition_variable cv;
@@ -607,6 +620,7 @@ std::vector<Scenario> Scenarios(std::uint64_t seed, int random_count) {
   add("tls", {"G,P1,G,E,G", "G,P2,G,E,G"});
   add("tls", {"P1,C,GQ,E,GQ", "GQ,P2,E,GQ"});
   add("tls", {"P1,G", "P2,C,GQ,G", "G,GQ"});
+  add("tls", {"GL,P1,GL", "GL,G"});
   // ---- random balanced programs
   vx::SplitMix rng{seed * 0x9e3779b97f4a7c15ULL + 18};
   const char* prims[] = {"mutex", "timed", "rec", "rect", "shared", "sharedt", "cv"};
